@@ -25,8 +25,19 @@ Theorem C09_sort_stable : forall (p : sym_entry -> bool) l,
 Proof. exact sort_stable_filter. Qed.
 Print Assumptions C09_sort_stable.
 
-(* the duplicate-GLOBAL finding, on the model: two records for one name *)
-Theorem C09_duplicate_global_refuted :
-  Datatypes.length (fst (global_entries [("_f"%string, 0)] ["_f"; "_f"]%string ([], []))) = 2%nat.
-Proof. reflexivity. Qed.
-Print Assumptions C09_duplicate_global_refuted.
+Lemma NoDup_app_iff_local : forall (acc : list string) n, existsb (String.eqb n) acc = false -> NoDup acc -> NoDup (acc ++ [n]).
+Proof.
+  intros acc n E H. induction H as [|x l Hx Hl IH]; [constructor; [intros []|constructor]|].
+  cbn [existsb] in E. apply orb_false_elim in E as [E1 E2]. cbn [app]. constructor.
+  - intros Hin. apply in_app_or in Hin as [Hin|[Hin|[]]]; [exact (Hx Hin)|]. subst x. rewrite String.eqb_refl in E1. discriminate.
+  - apply IH. exact E2.
+Qed.
+
+(* fix bce77b3: a name declared twice is kept once, in first-declaration order *)
+Theorem C09_global_dedup : forall acc g, NoDup acc -> NoDup (dedup_append acc g).
+Proof.
+  intros acc g. revert acc. unfold dedup_append. induction g as [|n r IH]; intros acc H; [exact H|].
+  cbn [fold_left]. apply IH. destruct (existsb (String.eqb n) acc) eqn:E; [exact H|].
+  apply NoDup_app_iff_local; assumption.
+Qed.
+Print Assumptions C09_global_dedup.
